@@ -274,17 +274,25 @@ def handle_url(f, backend):
     URL = yarl.URL
     if op == "orc" or op == "tag":
         return "ok"
-    if op == "np":
-        return enc(yarl._path.normalize_path(dec(f[1])))
-    if op == "su":
-        return enc_list(yarl._parse.split_url(dec(f[1])))
-    if op == "sn":
-        r = yarl._parse.split_netloc.__wrapped__(dec(f[1]))
-        return enc(r[0]) + " " + enc(r[1]) + " " + enc(r[2]) + " " + enc_opt_nat(r[3])
-    if op == "eh":
-        return enc(yarl._url._encode_host.__wrapped__(dec(f[1]), dec_bool(f[2])))
-    if op == "hq":
-        return enc(yarl._quoters.human_quote(dec(f[1]), dec(f[2])))
+    if op in ("np", "su", "sn", "eh", "hq"):
+        # internal helpers, addressed by their historical names: a harmless rewrite may rename or inline them — then this
+        # level of the correspondence is skipped (the URL-level ops exercise the same code through the public API)
+        modname, fname = {"np": ("_path", "normalize_path"), "su": ("_parse", "split_url"), "sn": ("_parse", "split_netloc"),
+                          "eh": ("_url", "_encode_host"), "hq": ("_quoters", "human_quote")}[op]
+        fn = getattr(getattr(yarl, modname, None), fname, None)
+        if fn is None:
+            return "!unavailable:" + fname
+        fn = getattr(fn, "__wrapped__", fn)
+        if op == "np":
+            return enc(fn(dec(f[1])))
+        if op == "su":
+            return enc_list(fn(dec(f[1])))
+        if op == "sn":
+            r = fn(dec(f[1]))
+            return enc(r[0]) + " " + enc(r[1]) + " " + enc(r[2]) + " " + enc_opt_nat(r[3])
+        if op == "eh":
+            return enc(fn(dec(f[1]), dec_bool(f[2])))
+        return enc(fn(dec(f[1]), dec(f[2])))
     if op == "pq":
         from urllib.parse import parse_qsl
         return enc_pairs(parse_qsl(dec(f[1]), keep_blank_values=True))
@@ -357,9 +365,12 @@ def handle_url(f, backend):
         # cache control (implementation only; the model is cache-free)
         if f[1] == "clear":
             yarl.cache_clear()
-            for fn in (yarl._url.encode_url, yarl._url.pre_encoded_url, yarl._url.build_pre_encoded_url,
-                       yarl._url.from_parts, yarl._parse.split_netloc, yarl._parse.make_netloc):
-                fn.cache_clear()
+            import sys as _sys
+            for modname, mod in list(_sys.modules.items()):
+                if modname == "yarl" or modname.startswith("yarl."):
+                    for obj in list(vars(mod).values()):
+                        if callable(getattr(obj, "cache_clear", None)) and hasattr(obj, "cache_info"):
+                            obj.cache_clear()
         elif f[1] == "configure":
             def sz(x):
                 return None if x == "~" else int(x)
